@@ -25,6 +25,7 @@ pub mod c10;
 pub mod c11;
 pub mod c12;
 pub mod c13;
+pub mod c14;
 
 pub fn all() -> Vec<Scenario> {
     let mut v = vec![];
@@ -39,5 +40,6 @@ pub fn all() -> Vec<Scenario> {
     c11::register(&mut v);
     c12::register(&mut v);
     c13::register(&mut v);
+    c14::register(&mut v);
     v
 }
